@@ -82,9 +82,16 @@ def plan(tier):
                     ("c", ("l", (("l", ()), ("l", ())))))),
              ("l", (("l", ("p", "q", "r")), ("l", (("l", ()), "x")),
                     ("l", ("x", ("l", ())))))]
+    # integer keys (negative ones too) and members: a reference which is a
+    # number is an index only where the parent is an Array
+    DOCS += [("m", ((-1, "a"), (1, "b"), (0, "a"))),
+             ("m", (("a", ("m", ((-1, "a"), (1, "b")))), (1, "a"))),
+             ("m", ((-2, 1), (-1, 1), (0, 1), (1, 1))),
+             ("m", (("a", ("s", (-1, 1, 2))), ("b", ("l", ("a", "b")))))]
     DOCS += [("l", ("p", "q", "r", "s")), ("l", (1, 1, 1, 1)),
              ("m", (("a", ("l", ("p", "q", "r", "s"))), ("b", 1)))]
-    voc = paths.vocab("c01-quick") + [("idx", -2), ("idx", 2)] + [
+    voc = paths.vocab("c01-quick") + [("idx", -2), ("idx", 2),
+                                      ("key", "-2")] + [
         ("slice", a, b) for a, b in ((0, 1), (0, 2), (1, 2), (1, 3), (0, 3),
                                      (1, 1), (-2, -1), (-3, -1), (0, -1),
                                      (-2, 3), (1, -1), (-5, 2), (1, 9))]
